@@ -14,7 +14,7 @@
     C01_safety / C01_progress) is not proved; the interleavings are covered by the two-peer
     correspondence campaign (harness/props/C01.py). *)
 From IsoTp Require Import Base.Prelude Model.Layer Model.Address Spec.ConfigSpec Spec.Stream Spec.Segment
-  Proofs.RxP Proofs.SegP Proofs.FaultP Proofs.TransferP Proofs.TxP Proofs.CoopP.
+  Proofs.RxP Proofs.SegP Proofs.FaultP Proofs.TransferP Proofs.TxP Proofs.CoopP Proofs.FcPosP.
 
 Theorem C01_segmentation_wellformed : forall c, params_ok (c_p c) -> forall t payload,
   1 <= zlen payload < 2 ^ 32 ->
@@ -68,8 +68,38 @@ Theorem C01_end_to_end_cooperative : forall ca cb, params_ok (c_p ca) -> 0 < p_t
       e2 = [] /\ rx_queue s2 = rx_queue srx ++ [payload] /\ rx_state s2 = RxIdle.
 Proof. exact end_to_end_multi. Qed.
 
+(** Lock step with the flow control really exchanged.  The sender uses the ContinueToSend the receiver
+    answers with (its blocksize and stmin).  [coopw] records, for each Consecutive Frame, whether the sender
+    had to be granted since the previous one; [rx_run_fc] records, after each frame, the Flow Control the
+    receiver emits.  Both runs are over the same frames - the reference segmentation - and: the sender
+    completes once with success, the receiver delivers exactly the payload without error, the receiver
+    answers the First Frame and then exactly after every completed block that is not the end of the
+    message, and the sender waits for a grant exactly at those points ([waits_before fc i = fc_due cb
+    (i-1) ncf]): neither side ever waits for the other in vain, and no Flow Control arrives unexpected. *)
+Theorem C01_lockstep : forall ca cb, params_ok (c_p ca) -> params_ok (c_p cb) -> p_listen (c_p cb) = false ->
+  0 < p_tbs_ns (c_p ca) -> forall a, p_tx_dl (c_p ca) <= a ->
+  forall s rid payload extra t mk, (forall d, f_data (mk d) = d) ->
+  zlen (tx_prefix (c_txa ca)) = c_rx_prefix_size cb ->
+  1 <= zlen payload < 2 ^ 32 -> zlen payload <= p_max_frame_size (c_p cb) -> is_single ca (zlen payload) = false ->
+  let fc := {| fc_status := FS_CTS; fc_bs := p_blocksize (c_p cb); fc_stmin := p_stmin (c_p cb) |} in
+  let ncf := n_cf ca (zlen payload) in
+  let fcref := spec_frame cb (Address.tx_arb_id (c_txa cb) Physical)
+                 (Address.tx_prefix (c_txa cb) ++ [0x30 + FS_CTS; p_blocksize (c_p cb); p_stmin (c_p cb)]) in
+  exists ff s1,
+    start_request ca (s <| active := Some (fresh_req rid payload extra t) |>) (fresh_req rid payload extra t) a = SRDone s1 [] (Some ff) /\
+    let '(cfs, evs, s') := coopw ca fc a (2 * Z.to_nat ncf) s1 true [] [] in
+    ff :: map snd cfs = seg ca t payload /\ evs = [EDone rid true] /\ tx_state s' = TxIdle /\ active s' = None /\
+    map fst cfs = map (waits_before fc) (zseq 1 ncf) /\
+    forall srx, rx_state srx = RxIdle -> pending_fc srx = false ->
+      let '(s2, e2, fcs) := rx_run_fc cb srx (map f_data (ff :: map snd cfs)) mk in
+      e2 = [] /\ rx_queue s2 = rx_queue srx ++ [payload] /\ rx_state s2 = RxIdle /\
+      fcs = Some fcref :: map (fun i => if fc_due cb i ncf then Some fcref else None) (zseq 1 ncf) /\
+      (forall i, 2 <= i <= ncf -> waits_before fc i = fc_due cb (i - 1) ncf).
+Proof. exact lockstep_multi. Qed.
+
 Print Assumptions C01_segmentation_wellformed.
 Print Assumptions C01_messages.
 Print Assumptions C01_transfer.
 Print Assumptions C01_recv_fifo.
 Print Assumptions C01_end_to_end_cooperative.
+Print Assumptions C01_lockstep.
